@@ -270,7 +270,21 @@ def run(R):
     guard2(to, 'dangling identifier in a reference graph',
            lambda t: True if isinstance(t, ast.Compare) and len(t.ops) == 1 and isinstance(t.ops[0], ast.NotIn) and isinstance(t.left, ast.Name)
            and ast.unparse(t.comparators[0]) == t_nodes else None)
-    guard2(to, 'cycle in a reference graph', lambda t: False if t_round and isinstance(t, ast.Name) and t.id == t_round else None)
+    def empty_round(t):
+        """label of the edge on which the round is empty"""
+        if not t_round:
+            return None
+        if isinstance(t, ast.Name) and t.id == t_round:
+            return False
+        c = cmp_sides(t)
+        if c and c[0] == f'len({t_round})' and c[2] == '0':
+            return {ast.Eq: True, ast.NotEq: False, ast.Gt: False, ast.LtE: True}.get(c[1])
+        if c and c[0] == f'len({t_round})' and c[2] == '1':
+            return {ast.Lt: True, ast.GtE: False}.get(c[1])
+        if c and c[0] == t_round and c[2] == '[]':
+            return {ast.Eq: True, ast.NotEq: False}.get(c[1])
+        return None
+    guard2(to, 'cycle in a reference graph', empty_round)
     guard2(gpn, 'temporary pattern as constraint value', lambda t: False if ast.unparse(t) == "op.id[0] != '_'" else (True if ast.unparse(t) == "op.id[0] == '_'" else None))
     guard2(gpn, 'temporary pattern as function argument', lambda t: False if ast.unparse(t) == "arg.id[0] != '_'" else (True if ast.unparse(t) == "arg.id[0] == '_'" else None))
     # unknown pattern: lookups of named_pats / temp_pats inside try whose KeyError/IndexError handler raises SemanticError
@@ -309,13 +323,13 @@ def run(R):
     marks = [n for n in to.cfg.nodes if loops and n.kind == 'stmt' and isinstance(n.ast, ast.Assign) and isinstance(n.ast.targets[0], ast.Subscript)
              and isinstance(n.ast.targets[0].value, ast.Name) and ast.unparse(n.ast.targets[0].slice) == loops[0].ast.target.id
              and ast.unparse(n.ast.value) == '-1']
-    empt = [t for t in to.cfg.nodes if t.kind == 'test' and t_round and isinstance(t.ast, ast.Name) and t.ast.id == t_round]
+    empt = [t for t in to.cfg.nodes if t.kind == 'test' and empty_round(t.ast) is not None]
     okp = len(wh) == 1 and len(apps) == 1 and len(marks) == 1 and len(loops) == 1 and len(empt) == 1 and \
         any(x is apps[0].ast for x in ast.walk(loops[0].ast)) and any(x is marks[0].ast for x in ast.walk(loops[0].ast)) and \
         not any(isinstance(x, (ast.If, ast.Continue, ast.Break)) for x in ast.walk(loops[0].ast))
     if okp:
         # the loop over cur_round is reached only when cur_round is non-empty
-        okp = loops[0].id not in to.cfg.reachable(removed_edges={(empt[0].id, True)})
+        okp = loops[0].id not in to.cfg.reachable(removed_edges={(empt[0].id, not empty_round(empt[0].ast))})
     if okp:
         R.ok('C13.LOP.1', inst, site(to, wh[0].ast))
     else:
